@@ -272,6 +272,9 @@ def sampler_body_factory(ctx):
         if not un:
             raise Violation("no uniform draw was made")
         n_eval = int(np.size(un[-1]["out"]))
+        if method == "rejection" and n_eval != len(order):
+            raise Violation("rejection_sample evaluated %d prior samples, %d were requested (the batches do not add up to "
+                            "the requested range)" % (n_eval, len(order)))
         asked = np.concatenate(helper.ll_calls) if helper.ll_calls else np.array([], dtype=int)
         if len(asked) != n_eval or not np.array_equal(asked, order[:n_eval]):
             raise Violation("%s: the batches handed to the workers do not cover the evaluated prior samples exactly once, "
@@ -329,3 +332,12 @@ def run(ctx):
     ctx.search("large", st.one_of(big_range(), big_arr), body, quick=400, thorough=8000)
     ctx.search("run_worker", rw_cases(), run_worker_body_factory(ctx), quick=300, thorough=6000)
     ctx.search("samplers", sampler_cases(), sampler_body_factory(ctx), quick=400, thorough=8000)
+
+    @st.composite
+    def large_sampler_cases(draw):
+        from vt import rej
+        case = draw(rej.large_cases())
+        case["method"] = draw(st.sampled_from(["marginal", "rejection", "rejection"]))
+        return case
+
+    ctx.search("large_library", large_sampler_cases(), sampler_body_factory(ctx), quick=10, thorough=80)
